@@ -91,15 +91,38 @@ def observe(args):
         def do_export():
             o['win_impl'] = [combs[b].best_layer_index() for b in range(len(combs))]
             # bitwise fingerprint of every parameter / buffer of the SuperNet (BatchNorm statistics included) around export()
-            before = {k: v.clone() for k, v in sn.state_dict().items()}
             if st.get('export_train'):
                 sn.train()
+            # MIXED per-module modes at export time
+            y_mixed = None
+            bns = [mod for mod in sn.modules() if isinstance(mod, torch.nn.BatchNorm2d)]
+            if st.get('mixed') == 'frozen':
+                # fine-tuning set-up: wrapper in train mode, every BatchNorm frozen (.eval()), combiners in eval (no sampling noise)
+                sn.train()
+                for mod in bns + list(combs.values()):
+                    mod.eval()
+                with torch.no_grad():
+                    y_mixed = sn(x)          # hard-selection output in exactly these modes, BEFORE export
+            elif st.get('mixed') == 'one-train' and bns:
+                sn.eval()
+                bns[0].train()               # a single layer in train mode inside an eval wrapper
+            before = {k: v.clone() for k, v in sn.state_dict().items()}
+            flags_before = {n_: mod.training for n_, mod in sn.named_modules()}
             try:
                 e = sn.export()
                 o['exc'] = None
             except Exception as ex_:  # noqa
                 e = None
                 o['exc'] = 'EXC:%s:%s' % (type(ex_).__name__, str(ex_)[:160])
+            o['flags_changed'] = sorted(n_ for n_, mod in sn.named_modules() if flags_before.get(n_) != mod.training)
+            if y_mixed is not None and e is not None:
+                # the exported network run as returned (it shares the layers, hence their modes) = the hard output taken before export
+                try:
+                    with torch.no_grad():
+                        ym = e(x)
+                    o['mixed_export_eq_hard'] = ym.shape == y_mixed.shape and bool(torch.equal(ym, y_mixed))
+                except Exception as ex_:  # noqa
+                    o['mixed_export_eq_hard'] = False
             sn.eval()
             after = sn.state_dict()
             o['sn_state_changed'] = sorted(k for k in set(before) | set(after) if k not in before or k not in after or not bool(torch.equal(before[k], after[k])))
@@ -188,7 +211,8 @@ def settings_for(rng, d, quick):
         alphas = [G.gen_alpha(rng, k, w, tie=tie) for k, w in zip(nbr, win)]
         sts.append({'alphas': alphas, 'how': rng.choice(['update', 'attr']), 'temp': rng.choice([None, None, 0.05, 0.5, 5.0, 20.0]),
                     'export_train': rng.random() < 0.35, 'export_first': rng.random() < 0.25,
-                    'write': rng.choice(G.WRITE_METHODS), 'grad': rng.random() < 0.3, 'frozen': rng.random() < 0.4})
+                    'write': rng.choice(G.WRITE_METHODS), 'grad': rng.random() < 0.3, 'frozen': rng.random() < 0.4,
+                    'mixed': rng.choice([None, None, None, 'frozen', 'frozen', 'one-train'])})
     if rng.random() < 0.5:   # the initial uniform coefficients (all equal: winner 0)
         sts.append({'alphas': [[1.0 / k] * k for k in nbr], 'how': 'update', 'temp': None})
     if all(b['hard'] for b in d['blocks']):
@@ -262,9 +286,14 @@ def check_obs(d, st, o, fails, tag):
         bad('exported-graph-has-losing-nodes' + suffix, 'the exported fx graph still calls modules of losing branches: %r' % sorted(set(n for n in graph_mods if n not in exp_names)))
     if o['has_combiner']:
         bad('combiner-left-in-export', 'a SuperNetCombiner is still in the exported module tree')
+    msfx = (':mixed-module-modes' if st.get('mixed') else '')
+    if o.get('flags_changed'):
+        bad('training-flags-changed-by-export' + msfx, '.training of %r differs before / after export() (modes at export time: %s)' % (o['flags_changed'][:8], st.get('mixed') or ('train' if st.get('export_train') else 'eval')))
+    if o.get('mixed_export_eq_hard') is False:
+        bad('export-differs-from-hard-eval' + msfx, 'wrapper in train mode with every BatchNorm frozen (.eval()): the exported network run as returned != SuperNet(x) with hard selection evaluated in the same modes just before export()')
     if o.get('sn_state_changed'):
-        bad('layers-touched-by-export' + (':export-in-train-mode' if st.get('export_train') else ''),
-            'parameters / buffers of the SuperNet changed by export(): %r' % o['sn_state_changed'][:8])
+        bad('layers-touched-by-export' + msfx + (':export-in-train-mode' if st.get('export_train') else ''),
+            'parameters / buffers of the SuperNet changed by export() (or by running the exported network in the modes export left): %r' % o['sn_state_changed'][:8])
     if not o['params_untouched'] or not o['seed_untouched']:
         bad('layers-touched-by-export', 'parameters of the surviving / original layers changed by export')
 
@@ -282,6 +311,7 @@ def run(ctx):
                 'update_softmax_options(hard=True) or the hard_softmax attribute, temperatures {1,.05,.5,5,20}; ALL winner combinations when every block has <= 4 branches, otherwise '
                 'sampled combinations that always include winners 1, 10, 11 and every branch ending in a functional op; one case = (network, coefficients); '
                 'coefficients written by no_grad copy_ / .data = / .data.copy_ / .data[i] = / a new nn.Parameter, AFTER the forward pass of the previous case on the same wrapper; hard forward under no_grad or with autograd, train_selection frozen or not; '
+                'one case in two sets MIXED per-module modes before export() (train wrapper with every BatchNorm and combiner in eval = frozen BN; eval wrapper with one BatchNorm in train): .training of every module, the whole state_dict and the exported output run as returned are compared with the values just before export(); '
                 'every third network is BUILT with hard_softmax=True on every block (with and without gumbel_softmax) and evaluated before any option call; '
                 'BatchNorm2d among the fixed layers and inside branches; export() called in eval and (35%) in train mode, before or after the hard forward, with a bitwise fingerprint of the whole SuperNet state_dict around it and the reference output taken before; '
                 'NEAR-TIE stream: networks built with hard_softmax=True, per block the unique raw maximum 1/2/4 float32 ulps or 1e-6 above an earlier- (or later-) indexed runner-up, temperatures {.05,1,20,100} through '
@@ -349,6 +379,8 @@ def run(ctx):
                 ctx.dist['train_selection frozen'] += 1
             if st.get('ctor_hard'):
                 ctx.dist['hard selection requested only at construction (gumbel blocks: %s)' % sorted({b['gumbel'] for b in d['blocks']})] += 1
+            if st.get('mixed') and 'bn' in d['types']:
+                ctx.dist['export() with MIXED per-module modes (%s) on a network with BatchNorm' % st['mixed']] += 1
             if st.get('export_train'):
                 ctx.dist['export() called in train mode'] += 1
                 if 'bn' in d['types']:
